@@ -94,8 +94,9 @@ def build(repo):
                ensures=['||d|| <= Delta (real arithmetic):: norm(result[0]) <= delta'])
     D.contract('ctrsbox_sfista', tags=['C13'],
                params={'xopt': 'V', 'g': 'V', 'H': 'V', 'projections': 'plist', 'delta': 'real', 'd_max_iters': 'int', 'd_tol': 'real', 'h': 'cb:h',
-                       'prox_uh': 'cb:prox_uh', 'L_h': 'real', 'func_tol': 'real', 'max_iters': 'int'},
-               requires=STEP_REQ + FINREQ + ['A-params sub-range (the S-FISTA loop runs at least once; func_tol.max_iters = 0 is accepted by the parameter check and leaves gnew unbound):: max_iters >= 1'],
+                       'prox_uh': 'cb:prox_uh', 'L_h': 'real', 'func_tol': 'real', 'max_iters': 'int', 'scaling_changes': 'opt:V'},
+               requires=STEP_REQ + FINREQ + [('(C13, C06) S-FISTA evaluates the regulariser in the caller\'s variables: it is handed the controller\'s scaling_changes:: scaling_changes == G.sc', 'C13', 'C06'),
+                                            'A-params sub-range (the S-FISTA loop runs at least once; func_tol.max_iters = 0 is accepted by the parameter check and leaves gnew unbound):: max_iters >= 1'],
                modifies=[], result=None,
                loops={'for:k#0': ['norm(d) <= delta']},
                ensures=['||d|| <= Delta (real arithmetic):: norm(result[0]) <= delta'])
@@ -106,7 +107,7 @@ def build(repo):
     PICK = [('the step returned is one of the two candidates (minimiser / maximiser of the linear function):: result == G.smin or result == G.smax', 'C13'),
             ('of the two candidates the one with the larger |c + g.s| is returned (the comparison that makes the geometry step attain its maximum):: '
              'abs(c + DOT(g, result)) >= abs(c + DOT(g, G.smin)) and abs(c + DOT(g, result)) >= abs(c + DOT(g, G.smax))', 'C13')]
-    D.ghost_shapes.update({'smin': 'V', 'smax': 'V'})
+    D.ghost_shapes.update({'smin': 'V', 'smax': 'V', 'sc': 'V'})
     D.contract('ctrsbox_geometry', tags=['C13'], params={'xbase': 'V', 'c': 'real', 'g': 'V', 'projections': 'plist', 'Delta': 'real', 'd_max_iters': 'int', 'd_tol': 'real'},
                requires=['Delta > 0'], modifies=['G.smin', 'G.smax'], result='V',
                ghost_after_assign={'smin': [('G.smin', 'smin')], 'smax': [('G.smax', 'smax')]},
@@ -125,7 +126,10 @@ def build(repo):
                          'implies(result == vadd(xbase, G.smin), abs(c + DOT(g, G.smin)) >= abs(c + DOT(g, G.smax))) and '
                          'implies(result == vadd(xbase, G.smax) and result != vadd(xbase, G.smin), abs(c + DOT(g, G.smax)) > abs(c + DOT(g, G.smin)))', 'C13')])
     # ------------------------------------------------------------------ model value and the zero-step substitution
-    D.contract('model_value', tags=['C13'], params={'g': 'V', 'H': 'V', 's': 'V', 'xopt': 'V', 'h': 'opt:cb:h'}, requires=[], modifies=[], result='real',
+    D.contract('model_value', tags=['C13'], params={'g': 'V', 'H': 'V', 's': 'V', 'xopt': 'V', 'h': 'opt:cb:h', 'scaling_changes': 'opt:V'},
+               requires=[('(C13, C06) with a regulariser the model value is taken in the caller\'s variables: the scaling handed to model_value is the controller\'s scaling_changes (ghost G.sc), '
+                          'so that h(x) - m(d) compares h at two points of the same coordinate system:: isnone(h) or scaling_changes == G.sc', 'C13', 'C06')],
+               modifies=[], result='real',
                ensures=['A-def (the model value is a function of its arguments; h is deterministic, A-callback):: result == MVF(g, H, s, xopt)',
                         'a zero step has model value h(x) (0 without a regulariser):: implies(s == zerov, result == ite(isnone(h), 0.0, HU(RSV(xopt))))'])
     D.field_shapes[('Controller', 'h')] = 'opt:cb:h'
@@ -135,16 +139,18 @@ def build(repo):
     D.contract('Model.xopt', tags=['C13'], modifies=[], result='V', params={'abs_coordinates': 'bool'},
                ensures=['A-def (the model is not modified inside trust_region_step, so xopt is one value per coordinate system):: result == ite(abs_coordinates, XOPT_ABS(), XOPT_REL())'],
                assumed=True)
+    D.field_shapes[('Controller', 'scaling_changes')] = 'opt:V'
+    SCDEF = 'A-def (ghost G.sc: the scaling triple of the controller, an opaque value here):: self.scaling_changes == G.sc'
     D.contract('Controller.trust_region_step', tags=['C13'],
-               requires=['self.delta > 0', 'parameters inside the range table (established by solve):: params("dykstra.max_iters") >= 1 and params("dykstra.d_tol") >= 0',
+               requires=[SCDEF, 'self.delta > 0', 'parameters inside the range table (established by solve):: params("dykstra.max_iters") >= 1 and params("dykstra.d_tol") >= 0',
                          'A-params sub-range (func_tol.max_iters = 0 is accepted by the parameter check):: params("func_tol.max_iters") >= 1'],
                modifies=[], result=None,
                ensures=['lemma instance (model value of the zero step, through the contract of model_value):: '
-                        'isnone(self.h) or model_value(result[1], result[2], zerov, XOPT_ABS(), self.h, (), None) == HU(RSV(XOPT_ABS()))',
+                        'isnone(self.h) or model_value(result[1], result[2], zerov, XOPT_ABS(), self.h, (), G.sc) == HU(RSV(XOPT_ABS()))',
                         ('the regularised step handed to the main loop never has a negative predicted reduction (h(x) - m(d) >= 0; the zero step is substituted otherwise):: '
                          'isnone(self.h) or HU(RSV(XOPT_ABS())) - MVF(result[1], result[2], result[0], XOPT_ABS()) >= 0', 'C13', 'C06')])
     D.contract('Controller.evaluate_criticality_measure', tags=['C08', 'C13'],
-               requires=['parameters inside the range table (established by solve):: params("dykstra.max_iters") >= 1 and params("dykstra.d_tol") >= 0',
+               requires=[SCDEF, 'parameters inside the range table (established by solve):: params("dykstra.max_iters") >= 1 and params("dykstra.d_tol") >= 0',
                          'A-params sub-range (func_tol.max_iters = 0 is accepted by the parameter check):: params("func_tol.max_iters") >= 1'],
                modifies=[], result=None, ensures=[],
                notes='under contract for its call-site obligations only: S-FISTA is entered with a finite gradient (and a zero Hessian) or not at all')
